@@ -14,6 +14,9 @@ type G struct {
 	r *rand.Rand
 	// respelled Cache-Control field lines -> the canonical single line with the same directives
 	canon map[string]string
+	// no Vary field nominating Cache-Control: where respelled and canonical Cache-Control request fields are compared
+	// (profile spell), a nominated Cache-Control would make the spelling select the variant, which C04 allows
+	noVaryCC bool
 }
 
 func newG(seed uint64, stream uint64) *G {
@@ -348,7 +351,7 @@ func (g *G) reqDirectives(p *Profile) []directive {
 var varyFields = []string{"Accept-Encoding", "X-Custom", "Accept-Language", "User-Agent"}
 
 func (g *G) varyValue() string {
-	if g.chance(0.04) {
+	if !g.noVaryCC && g.chance(0.04) {
 		// a selecting field that the cache itself reads for other purposes
 		return g.pick("Cache-Control", "Accept-Encoding, Cache-Control", "cache-control")
 	}
@@ -871,6 +874,7 @@ func (g *G) genTwoMatchCase(p *Profile, id string) *Case {
 
 // genFor: the generator of case number i of a profile (targeted shapes are mixed into some profiles)
 func (g *G) genFor(p *Profile, id string, i int) *Case {
+	g.noVaryCC = p.Name == "spell"
 	switch {
 	case p.Name == "repeat":
 		return g.genRepeatCase(p, id)
